@@ -48,17 +48,22 @@ func emitAuthCall(c *compiler, a *asm, x *act, self string) {
 		a.op(opAUTH, opPOP)
 	}
 	target, _ := c.ab.resolveName(x.addr)
+	inOff, inSize, gasOp := 0, 32, x.body.need()
+	if n := precN(x.addr); n != 0 {
+		inOff, inSize = emitPrecInput(a, n, x.body.end == "invalid")
+		gasOp = precGasOperand(x)
+	}
 	a.push(uint64(x.id))
 	a.push(0)
 	a.op(opMSTORE)
-	a.push(0)  // retLength
-	a.push(0)  // retOffset
-	a.push(32) // argsLength
-	a.push(0)  // argsOffset
-	a.push(0)  // valueExt
+	a.push(0) // retLength
+	a.push(0) // retOffset
+	a.push(uint64(inSize))
+	a.push(uint64(inOff))
+	a.push(0) // valueExt
 	a.push(uint64(x.value))
 	a.pushBytes(target[:])
-	a.push(x.body.need())
+	a.push(gasOp)
 	a.push(uint64(x.authNonce))
 	a.op(opAUTHCALL)
 	c.marker(a, markerExit, x.id, true)
